@@ -157,6 +157,37 @@ func (g *Graph) valueOf(e ast.Expr, env penv) Tri {
 	return Unknown
 }
 
+// isFreshErr: e is a direct call of an error constructor.
+func (g *Graph) isFreshErr(e ast.Expr) bool {
+	call, ok := ast.Unparen(e).(*ast.CallExpr)
+	if !ok {
+		return false
+	}
+	fn, ok := calleeObj(g.F.Info(), call).(*types.Func)
+	if !ok {
+		return false
+	}
+	if fn.Name() == "fmtErrorf" {
+		return true
+	}
+	return fn.Pkg() != nil && (fn.Pkg().Path()+"."+fn.Name() == "fmt.Errorf" || fn.Pkg().Path()+"."+fn.Name() == "errors.New")
+}
+
+// rootPkgVar: e names a package-level variable (x or pkg.x).
+func rootPkgVar(info *types.Info, e ast.Expr) (*types.Var, bool) {
+	switch x := ast.Unparen(e).(type) {
+	case *ast.Ident:
+		if o, ok := info.Uses[x].(*types.Var); ok && !isLocal(o) && !o.IsField() {
+			return o, true
+		}
+	case *ast.SelectorExpr:
+		if o, ok := info.Uses[x.Sel].(*types.Var); ok && !isLocal(o) && !o.IsField() {
+			return o, true
+		}
+	}
+	return nil, false
+}
+
 // step applies the effect of CFG node n to env.
 func (g *Graph) step(env penv, n ast.Node) penv {
 	tr := g.tracked()
@@ -170,6 +201,9 @@ func (g *Graph) step(env penv, n ast.Node) penv {
 			vals := make([]Tri, len(s.Rhs))
 			for i, r := range s.Rhs {
 				vals[i] = g.valueOf(r, env)
+				if vals[i] == True && g.isFreshErr(r) {
+					vals[i] = Fresh
+				}
 			}
 			for i, l := range s.Lhs {
 				if o := objOf(info, l); o != nil && tr[o] {
@@ -240,6 +274,9 @@ func (g *Graph) atomValue(e ast.Expr, env penv) Tri {
 		if v == Unknown {
 			return Unknown
 		}
+		if v == Fresh {
+			v = True
+		}
 		if eq {
 			return v.Not()
 		}
@@ -253,6 +290,15 @@ func (g *Graph) atomValue(e ast.Expr, env penv) Tri {
 		}
 		if isTracked(x) && env[objOf(info, x)] == False {
 			if tv, has := info.Types[y]; has && isErrorType(tv.Type) && !f.mayBeNilError(y) {
+				if be.Op == token.EQL {
+					return False
+				}
+				return True
+			}
+		}
+		// an error value built a moment ago is not identical to a package-level sentinel
+		if isTracked(x) && env[objOf(info, x)] == Fresh {
+			if o, isVar := rootPkgVar(info, y); isVar && isErrorType(o.Type()) {
 				if be.Op == token.EQL {
 					return False
 				}
@@ -295,7 +341,9 @@ func (g *Graph) refine(env penv, e Edge) penv {
 				v = be.Y
 			}
 			if eq != a.Val {
-				env = env.with(objOf(info, v), True)
+				if env[objOf(info, v)] != Fresh {
+					env = env.with(objOf(info, v), True)
+				}
 			} else {
 				env = env.with(objOf(info, v), False)
 			}
@@ -307,12 +355,12 @@ func (g *Graph) refine(env penv, e Edge) penv {
 			if !isTracked(v) {
 				v, y = y, v
 			}
-			if isTracked(v) && isErrorType(objOf(info, v).Type()) && !g.F.mayBeNilError(y) {
+			if isTracked(v) && isErrorType(objOf(info, v).Type()) && !g.F.mayBeNilError(y) && env[objOf(info, v)] != Fresh {
 				env = env.with(objOf(info, v), True)
 			}
 		}
 		if call, ok := x.(*ast.CallExpr); ok && a.Val && len(call.Args) == 2 && matchCallee(info, call, Callee{"errors", "", "Is"}, Callee{"errors", "", "As"}) {
-			if isTracked(call.Args[0]) {
+			if isTracked(call.Args[0]) && env[objOf(info, call.Args[0])] != Fresh {
 				env = env.with(objOf(info, call.Args[0]), True)
 			}
 		}
